@@ -1255,14 +1255,36 @@ func main() {
 	}
 	for sc := 0; sc < nscen; sc++ {
 		type rec struct {
-			scope fox.HandlerScope
-			o     outcome
+			scope  fox.HandlerScope
+			call   string // how Context.ClientIP was reached
+			second bool   // after c.SetRequest with the second set of headers
+			o      outcome
 		}
 		var recs []rec
+		var second *http.Request // headers / remote address installed with c.SetRequest half way through
 		audit := func(next fox.HandlerFunc) fox.HandlerFunc {
 			return func(c fox.Context) {
-				ip, err := c.ClientIP()
-				recs = append(recs, rec{c.Scope(), outcome{ip: ip, err: err}})
+				probe := func(after bool) {
+					add := func(call string, x fox.Context) {
+						for i := 1; i <= 2; i++ { // twice: a memoised answer must still be this request's
+							ip, err := x.ClientIP()
+							recs = append(recs, rec{c.Scope(), fmt.Sprintf("%s call %d", call, i), after, outcome{ip: ip, err: err}})
+						}
+					}
+					add("c.ClientIP()", c)
+					add("c.Clone().ClientIP()", c.Clone())
+					cc := c.CloneWith(c.Writer(), c.Request())
+					add("c.CloneWith(c.Writer(), c.Request()).ClientIP()", cc)
+					cc.Close()
+				}
+				probe(false)
+				if second != nil {
+					r2 := c.Request().Clone(c.Request().Context())
+					r2.Header = second.Header
+					r2.RemoteAddr = second.RemoteAddr
+					c.SetRequest(r2)
+					probe(true)
+				}
 				next(c)
 			}
 		}
@@ -1327,10 +1349,16 @@ func main() {
 				sh = shots[rnd.Intn(2)]
 			}
 			rq := g.request()
-			req := rq.httpRequest(rnd.Pct(50))
+			nilHdr := rnd.Pct(50)
+			req := rq.httpRequest(nilHdr)
 			req.Method = sh.method
 			req.URL.Path = sh.path
 			req.RequestURI = sh.path
+			rq2 := g.request() // a different client: other headers, other remote address
+			second = nil
+			if rnd.Pct(60) {
+				second = rq2.httpRequest(nilHdr)
+			}
 			recs = recs[:0]
 			panicked := false
 			func() {
@@ -1341,28 +1369,35 @@ func main() {
 				}()
 				f.ServeHTTP(httptest.NewRecorder(), req)
 			}()
-			var o outcome
-			switch {
-			case panicked:
-				o = outcome{panicked: true, pval: "panic while serving"}
-			case len(recs) != 1 || recs[0].scope != sh.scope:
-				hx.Fatal(fmt.Errorf("through-fox stream: %s %s reached %d audited handlers (scope %v), expected one in scope %v", sh.method, sh.path, len(recs), recs, sh.scope))
-			default:
-				o = recs[0].o
+			want := 6
+			if second != nil {
+				want = 12
 			}
-			term := fmt.Sprintf("CVia %s %s %s %s", globTerm, sh.route, rq.coq(), o.coq())
-			human := fmt.Sprintf("Context.ClientIP in [%s] (router-wide resolver %s; previous request on this router: %s) on {%s} => %s",
-				sh.label, globHuman, prev, rq.human(), o.human())
-			prev = sh.label
-			if !seen[term] {
+			if panicked {
+				recs = append(recs[:0], rec{sh.scope, "serving", false, outcome{panicked: true, pval: "panic while serving"}})
+			} else if len(recs) != want || recs[0].scope != sh.scope {
+				hx.Fatal(fmt.Errorf("through-fox stream: %s %s produced %d audited calls (first scope %v), expected %d in scope %v", sh.method, sh.path, len(recs), recs[0].scope, want, sh.scope))
+			}
+			for _, rc := range recs {
+				cur, which := rq, "the request as received"
+				if rc.second {
+					cur, which = rq2, "the request installed with c.SetRequest (other headers and remote address)"
+				}
+				term := fmt.Sprintf("CVia %s %s %s %s", globTerm, sh.route, cur.coq(), rc.o.coq())
+				observations++
+				st.Count("stream:through-fox")
+				st.Count("outcome:" + rc.o.class())
+				if seen[term] { // the six calls on one request normally agree: one term
+					continue
+				}
 				seen[term] = true
+				human := fmt.Sprintf("%s in [%s] on %s (router-wide resolver %s; previous request on this router: %s) {%s} => %s",
+					rc.call, sh.label, which, globHuman, prev, cur.human(), rc.o.human())
 				all = append(all, entry{term, human})
+				nontrivial++
 			}
-			observations++
-			nontrivial++
-			st.Count("stream:through-fox")
+			prev = sh.label
 			st.Count("through-fox:" + strings.SplitN(sh.label, " ", 2)[0])
-			st.Count("outcome:" + o.class())
 		}
 	}
 
